@@ -586,6 +586,7 @@ pub fn run(op: &str, a: &Args) -> Option<Outcome> {
         ["info", kind, opn] => Some(info_op(kind, opn, a)),
         ["dom", kind, opn] => Some(dom_op(kind, opn, a)),
         ["order", "script"] => Some(crate::ops_more::order_script(arg(a, "script"))),
+        ["xpath", "corpus"] | ["xpath", "corpus_paths"] | ["xpath", "corpus_scalars"] | ["xpath", "corpus_names"] => Some(crate::ops_seq::xpath_corpus(arg(a, "doc").parse().unwrap_or(0), arg(a, "query"), arg(a, "expected"))),
         ["xpath", rest @ ..] => crate::ops_more::xpath_op(rest, a),
         ["ctx", "script"] => Some(crate::ops_more::ctx_script(arg(a, "script"))),
         ["dom", "order_keys"] => Some(crate::ops_more::dom_order_keys(arg(a, "doc"))),
@@ -630,11 +631,14 @@ pub fn grid(op: &str, limit: usize) -> (usize, Vec<(Args, Outcome)>) {
     let mut n = 0usize;
     let mut bad = vec![];
     let try_one = |a: Args, n: &mut usize, bad: &mut Vec<(Args, Outcome)>| {
-        *n += 1;
         if bad.len() >= limit {
+            *n += 1;
             return;
         }
+        // only inputs the operation actually evaluated count as cases (an unknown operation or an input outside the mirror's
+        // domain answers None): a grid that evaluates nothing reports 0 cases, which the driver treats as UNDECIDED
         if let Some(o) = run(op, &a) {
+            *n += 1;
             if !o.agree() {
                 bad.push((a, o));
             }
@@ -753,6 +757,19 @@ pub fn grid(op: &str, limit: usize) -> (usize, Vec<(Args, Outcome)>) {
         ["dom", "views_after_edits"] | ["dom", "keys_after_edits"] | ["dom", "preorder_after_edits"] | ["dom", "children_after_edits"] => {
             for sc in crate::ops_more::EDIT_SCENARIOS {
                 try_one(mk(&[("scenario", sc)]), &mut n, &mut bad);
+            }
+        }
+        ["xpath", "corpus"] | ["xpath", "corpus_paths"] | ["xpath", "corpus_scalars"] | ["xpath", "corpus_names"] => {
+            // corpus_paths: node-set results of documents 0, 2, 3; corpus_names: document 1 (namespaces); corpus_scalars: the rest
+            for line in crate::ops_seq::XPATH_CORPUS.lines() {
+                let mut it = line.splitn(3, '\t');
+                let (d, q, e) = (it.next().unwrap_or(""), it.next().unwrap_or(""), it.next().unwrap_or(""));
+                let part = if d == "1" { "corpus_names" } else if e.starts_with("NS:") { "corpus_paths" } else { "corpus_scalars" };
+                if parts[1] != "corpus" && parts[1] != part {
+                    continue;
+                }
+                let q = crate::ops_more::unescape_line(q);
+                try_one(mk(&[("doc", d), ("query", q.as_str()), ("expected", e)]), &mut n, &mut bad);
             }
         }
         ["dom", "attr_seq1"] => {
